@@ -503,6 +503,22 @@ func runPipeline(c *simrun.Ctx) *simrun.Violation {
 			dead := simhook.NewReplayTape(nil)
 			var m proto.Message
 			reuseObj := false
+			// every encoding this producer obtained stays its own: none may change
+			// when later encodings are made or the message is re-used
+			type kept struct {
+				frame []byte
+				sum   uint64
+				id    int
+			}
+			var earlier []kept
+			defer func() {
+				for _, k := range earlier {
+					if checksum(k.frame) != k.sum {
+						lg.errf("C07:earlier-marshal-output-changed-by-a-later-call|frame %d of this producer no longer holds the bytes Marshal returned", k.id)
+						break
+					}
+				}
+			}()
 			for _, fp := range pl {
 				var frame []byte
 				if fp.foreign {
@@ -586,6 +602,9 @@ func runPipeline(c *simrun.Ctx) *simrun.Violation {
 					copies = 2
 				}
 				frameSum := checksum(frame)
+				if !fp.foreign {
+					earlier = append(earlier, kept{frame, frameSum, fp.id})
+				}
 				for k := 0; k < copies; k++ {
 					simhook.WaitOn(waitFreeSlot, 0)
 					slot := w.takeFreeSlot()
